@@ -40,6 +40,25 @@ def make_case(rng, tier, single_p=0.2, allow_empty=True):
     return files, pl, single
 
 
+def corner_cases():
+    """Trees every run includes whatever the seed draws: a symbolic link and a hard link to a
+    payload file, directories without files, very deep nesting, nothing but empty files."""
+    from harness.common import Blob
+    import copy
+    out = []
+    for pl in (16384, 32768):
+        base = [("a", Blob.rand(7, pl + 777)), ("d/b", Blob.rand(8, 300))]
+        sym = copy.copy(base[0][1]); sym.symlink_of = "a"
+        hard = copy.copy(base[1][1]); hard.hardlink_of = "d/b"
+        f1 = gen.FileList(base + [("d/link-to-a", sym), ("z/second-name", hard)])
+        f1.emptydirs = ("void", "d/e/mpty")
+        out.append((f1, pl, False))
+        deep = "/".join(["n"] * 17)
+        out.append((gen.FileList([(deep + "/leaf", Blob.rand(9, pl)), ("top", Blob.rand(10, 5))]), pl, False))
+    out.append((gen.FileList([("e1", Blob.rand(1, 0)), ("d/e2", Blob.rand(1, 0))]), 16384, False))
+    return out
+
+
 def materialize(box, files, single):
     if single:
         name = files[0][0].split("/")[-1]
@@ -48,14 +67,19 @@ def materialize(box, files, single):
     root = os.path.join(box, "payload")
     write_tree(root, [(rel, b.bytes()) for rel, b in files])
     for rel, b in files:
-        if getattr(b, "hardlink_of", None):
+        present = {r for r, _ in files}
+        if getattr(b, "symlink_of", None) not in present | {None} or \
+                getattr(b, "hardlink_of", None) not in present | {None}:
+            continue        # (a shrunk case may have lost the other file: then an ordinary file)
+        if getattr(b, "symlink_of", None):         # a symbolic link (relative) to the other file
             path = os.path.join(root, *rel.split("/"))
             os.remove(path)
-            if b.hardlink_of.startswith("@"):      # a symbolic link (relative) to the other file
-                target = os.path.join(root, *b.hardlink_of[1:].split("/"))
-                os.symlink(os.path.relpath(target, os.path.dirname(path)), path)
-            else:
-                os.link(os.path.join(root, *b.hardlink_of.split("/")), path)
+            target = os.path.join(root, *b.symlink_of.split("/"))
+            os.symlink(os.path.relpath(target, os.path.dirname(path)), path)
+        elif getattr(b, "hardlink_of", None):
+            path = os.path.join(root, *rel.split("/"))
+            os.remove(path)
+            os.link(os.path.join(root, *b.hardlink_of.split("/")), path)
     for d in getattr(files, "emptydirs", ()):
         os.makedirs(os.path.join(root, *d.split("/")), exist_ok=True)
     return root, "payload"
@@ -65,6 +89,7 @@ def links(files):
     """What a recorded case needs besides names and contents: hard links (rel -> other name)
     and directories without any file (key with a trailing '/', value None)."""
     out = {rel: b.hardlink_of for rel, b in files if getattr(b, "hardlink_of", None)}
+    out.update({rel: {"symlink": b.symlink_of} for rel, b in files if getattr(b, "symlink_of", None)})
     out.update({d + "/": None for d in getattr(files, "emptydirs", ())})
     return out
 
@@ -74,8 +99,11 @@ def files_of_case(case):
     out = gen.FileList()
     for rel, tok in case["files"]:
         blob = blob_from_token(tok)
-        if (case.get("links") or {}).get(rel):
-            blob.hardlink_of = case["links"][rel]
+        link = (case.get("links") or {}).get(rel)
+        if isinstance(link, dict):
+            blob.symlink_of = link["symlink"]
+        elif link:
+            blob.hardlink_of = link
         out.append((rel, blob))
     out.emptydirs = tuple(k[:-1] for k in (case.get("links") or {}) if k.endswith("/"))
     return out
